@@ -8,6 +8,7 @@ Line-protocol front end of the C12 model.
 C12 eval  sep|pts|polar <tol> <xs> <ys> <shape…> →  ok <values> <near flags> <path==pointwise 0/1> [polar: <#points where diskAgree fails away from a boundary>]
 C12 super <nx> <ny> <tol> <xs> <ys> <shape…>     →  ok <means> <near flags>  |  err index  |  err zerodiv
 C12 superstat mean|sum|min|max <nx> <ny> <tol> <xs> <ys> <shape…>   →  as `super`, for the given statistic
+C12 superlist <stat> <nx> <ny> <tol> <xs> <ys> <n> <shape 1> … <shape n>   →  ok <values 1> <flags 1> … | err …
 C12 regsub sep <tol> <xs> <ys> <even> <r> <a> <dirs> <cx> <cy>
         →  ok some <y0> <x0> <nr> <nc> <f_sub ravelled> <near flags> <edge 0/1>  |  ok none <edge 0/1>
 C12 regsub pts <tol> <xs> <ys> <even> <r> <a> <dirs> <cx> <cy>
@@ -121,6 +122,19 @@ def parseShape? : Nat → List String → Option (Shape × List String)
       | _ => none
     | _ => none
   | _, [] => none
+
+/-- several shapes one after the other -/
+def parseShapes? : Nat → List String → Option (List Shape)
+  | _, [] => some []
+  | 0, _ => none
+  | fuel + 1, toks => do
+    let (s, rest) ← parseShape? 1000 toks
+    let ss ← parseShapes? fuel rest
+    pure (s :: ss)
+
+def parseStat? (stat : String) : Option Stat :=
+  if stat == "mean" then some .mean else if stat == "sum" then some .sum
+  else if stat == "min" then some .min else if stat == "max" then some .max else none
 
 def parseWhole? (toks : List String) : Option Shape :=
   match parseShape? 1000 toks with
@@ -263,8 +277,31 @@ def step (st : St) : List String → St × String
       | _, .error .zeroDiv => (st, "err zerodiv")
       | _, .error .attribute => (st, "err attribute")
       | _, .error .index => (st, "err index")
+      | _, .error .value => (st, "err value")
       | none, .ok _ => (st, "err index")
     | _, _, _, _, _, _, _ => (st, "bad-op")
+  -- a list of generators: `C12 superlist <stat> <nx> <ny> <tol> <xs> <ys> <n> <shape 1> … <shape n>`
+  --   → ok <values 1> <near flags 1> … <values n> <near flags n>  |  err index|zerodiv|attribute|value
+  | "superlist" :: stat :: nx :: ny :: tol :: xs :: ys :: n :: shapes =>
+    match parseStat? stat, parseNat? nx, parseNat? ny, parseRat? tol, parseRatList? xs, parseRatList? ys, parseNat? n,
+          parseShapes? 64 shapes with
+    | some stat, some nx, some ny, some tol, some xs, some ys, some n, some ss =>
+      if ss.length != n then (st, "bad-op") else
+      match supersampledList stat nx ny xs ys ss with
+      | .ok fs =>
+        match ditherGrids nx ny xs ys with
+        | none => (st, "err index")
+        | some gs =>
+          let one := fun (sf : Shape × List Rat) =>
+            let flags := gs.foldl (fun acc g => List.zipWith (fun a b => a || b) acc ((sepPoints g.1 g.2).map (near tol sf.1)))
+              (List.replicate (xs.length * ys.length) false)
+            s!"{showRatList sf.2} {showList showBool flags}"
+          (st, "ok " ++ " ".intercalate ((ss.zip fs).map one))
+      | .error .zeroDiv => (st, "err zerodiv")
+      | .error .attribute => (st, "err attribute")
+      | .error .index => (st, "err index")
+      | .error .value => (st, "err value")
+    | _, _, _, _, _, _, _, _ => (st, "bad-op")
   | _ => (st, "bad-op")
 
 end HcipyVerif.Driver.C12
